@@ -512,7 +512,7 @@ pub fn probe_capacity<K: KeyT, V: ValT>(rebuild: &dyn Fn() -> MapSut<K, V>, sut:
         } else {
             let want_n = len.max(m);
             if want_n < (1 << 20) {
-                let fresh: Map<K, V> = Map::with_capacity_and_hasher_in(want_n, PlanBuild, CheckAlloc);
+                let fresh: Map<K, V> = Map::with_capacity_and_hasher_in(want_n, PlanBuild::default(), CheckAlloc);
                 let fsize = fresh.allocation_size();
                 drop(fresh);
                 if nsize > fsize.max(0) && nsize > fsize {
@@ -537,7 +537,7 @@ pub fn probe_capacity<K: KeyT, V: ValT>(rebuild: &dyn Fn() -> MapSut<K, V>, sut:
             return Err("shrink_to_fit on an empty collection kept its allocation".into());
         }
         if len > 0 {
-            let fresh: Map<K, V> = Map::with_capacity_and_hasher_in(len, PlanBuild, CheckAlloc);
+            let fresh: Map<K, V> = Map::with_capacity_and_hasher_in(len, PlanBuild::default(), CheckAlloc);
             if s.map.allocation_size() > fresh.allocation_size() {
                 return Err(format!("shrink_to_fit left {} bytes, a fresh with_capacity({len}) needs {}", s.map.allocation_size(), fresh.allocation_size()));
             }
@@ -582,8 +582,8 @@ pub fn probe_constructors<K: KeyT, V: ValT>() -> Result<u64, String> {
     let mut count = 0;
     let (a0, _) = env::alloc_calls();
     let m1: Map<K, V> = Map::default();
-    let m2: Map<K, V> = Map::with_hasher_in(PlanBuild, CheckAlloc);
-    let m3: Map<K, V> = Map::with_capacity_and_hasher_in(0, PlanBuild, CheckAlloc);
+    let m2: Map<K, V> = Map::with_hasher_in(PlanBuild::default(), CheckAlloc);
+    let m3: Map<K, V> = Map::with_capacity_and_hasher_in(0, PlanBuild::default(), CheckAlloc);
     let (a1, _) = env::alloc_calls();
     if a1 != a0 {
         return Err("default()/with_hasher_in()/with_capacity(0) called the allocator".into());
@@ -600,7 +600,7 @@ pub fn probe_constructors<K: KeyT, V: ValT>() -> Result<u64, String> {
         ns.extend([b - 1, b, b + 1, (1 << k) - 1, 1 << k, (1 << k) + 1]);
     }
     for n in ns {
-        let m: Map<K, V> = Map::with_capacity_and_hasher_in(n, PlanBuild, CheckAlloc);
+        let m: Map<K, V> = Map::with_capacity_and_hasher_in(n, PlanBuild::default(), CheckAlloc);
         if m.capacity() < n {
             return Err(format!("with_capacity({n}).capacity() = {}", m.capacity()));
         }
